@@ -269,6 +269,13 @@ impl Hypergeometric {
             let p2 = p1 + k_l / lambda_l;
             let p3 = p2 + k_r / lambda_r;
 
+            // For very large populations the logarithms of factorials above lose
+            // all precision and the tail weights can overflow; `sample` would then
+            // panic on `Uniform::new(0.0, p3)`.
+            if !p3.is_finite() {
+                return Err(Error::PopulationTooLarge);
+            }
+
             SamplingMethod::RejectionAcceptance {
                 m,
                 a,
